@@ -82,6 +82,11 @@ chk("C09", "exploration",
     "Width 100 only (the width of `format` and the language server). The 223 slot signatures in which the pinned parser/printer pair loses, reorders or destabilises a comment were harvested from thorough runs and are listed as known findings; a loss in any other slot is a violation.",
     "runtime monitoring: idempotence and comment-conservation oracles over systematic comment insertion", "DESIGN.md §4 C09")
 
+chk("C12", "exploration",
+    "The same sources (tests.AllTests, 5-module generator programs, rejected variants with many diagnostics) are compiled by the real compile_sources in many fresh processes (fresh hash seeds), with RAYON_NUM_THREADS in {1,2,3,8,16}, a different insertion order of the source map and different amounts of unrelated string interning; verdict, rendered diagnostics and the traces of the emitted wasm (WasmGC interpreter) and TypeScript (node) must be identical across processes. The number of distinct emitted texts per program is measured to show that order dependence was exercised.",
+    "Hash-map orders and schedules are sampled, not enumerated; behaviour is compared through the harness's executors.",
+    "runtime monitoring: N-version comparison of fresh processes over hash seeds, thread counts and enumeration orders", "DESIGN.md §4 C12")
+
 NA_REASON = "check under construction in this round (machinery not yet registered)"
 m = {
  "version": 1,
